@@ -201,6 +201,15 @@ def _const_flt(val):
     return f
 
 
+def _checked(m, st, name, a):
+    """usize::checked_sub / checked_add: Some(result) unless the operation overflows"""
+    flag = ('op', 'ovf_' + name, (a[0], a[1], ('str', 'usize')))
+    out = []
+    for s2, b in m.sx.fork_bool(st, flag):
+        out.append((s2, NONE if b else some(op(name, a[0], a[1]))))
+    return out
+
+
 def _zero(m, st, fr, callee, args, dest_ty, term):
     return ('op', 'zero', ())
 
@@ -293,6 +302,103 @@ def _call_closure_then(m, st, fr, term, clo, argtuple, wrap):
     if r is None:
         return [(st, ('unknown', 'call of non-closure %s' % T.show(clo)))]
     return [(st, None)]
+
+
+def _opt_zip(m, st, fr, callee, args, dest_ty, term):
+    out = []
+    for s2, a in m.expand_enum(st, args[0]):
+        for s3, b in m.expand_enum(s2, args[1]):
+            out.append((s3, some(('tuple', (a[3][0], b[3][0]))) if (a[2] == 1 and b[2] == 1) else NONE))
+    return out
+
+
+def _opt_map_or(m, st, fr, callee, args, dest_ty, term):
+    out = []
+    for s2, v in m.expand_enum(st, args[0]):
+        f2 = s2.frames[-1]
+        if v[2] == 1:
+            out.extend(_call_closure_then(m, s2, f2, term, args[2], ('tuple', (v[3][0],)), None))
+        else:
+            out.append((s2, args[1]))
+    return out
+
+
+def _opt_map(m, st, fr, callee, args, dest_ty, term):
+    out = []
+    for s2, v in m.expand_enum(st, args[0]):
+        f2 = s2.frames[-1]
+        if v[2] == 1:
+            out.extend(_call_closure_then(m, s2, f2, term, args[1], ('tuple', (v[3][0],)), 'some'))
+        else:
+            out.append((s2, NONE))
+    return out
+
+
+def _opt_and_then(m, st, fr, callee, args, dest_ty, term):
+    out = []
+    for s2, v in m.expand_enum(st, args[0]):
+        f2 = s2.frames[-1]
+        if v[2] == 1:
+            out.extend(_call_closure_then(m, s2, f2, term, args[1], ('tuple', (v[3][0],)), None))
+        else:
+            out.append((s2, NONE))
+    return out
+
+
+def _opt_unwrap_or_else(m, st, fr, callee, args, dest_ty, term):
+    out = []
+    for s2, v in m.expand_enum(st, args[0]):
+        f2 = s2.frames[-1]
+        if v[2] == 1:
+            out.append((s2, v[3][0]))
+        else:
+            out.extend(_call_closure_then(m, s2, f2, term, args[1], UNIT, None))
+    return out
+
+
+def _opt_is(which):
+    def f(m, st, fr, callee, args, dest_ty, term):
+        out = []
+        v0 = m.deref(st, args[0])
+        for s2, v in m.expand_enum(st, v0):
+            out.append((s2, ('bool', (v[2] == 1) == which)))
+        return out
+    return f
+
+
+def _opt_ok_or(m, st, fr, callee, args, dest_ty, term):
+    out = []
+    for s2, v in m.expand_enum(st, args[0]):
+        out.append((s2, ok(v[3][0]) if v[2] == 1 else err(args[1])))
+    return out
+
+
+def _res_ok(m, st, fr, callee, args, dest_ty, term):
+    out = []
+    for s2, v in m.expand_enum(st, args[0]):
+        out.append((s2, some(v[3][0]) if v[2] == 0 else NONE))
+    return out
+
+
+def _res_is(which):
+    def f(m, st, fr, callee, args, dest_ty, term):
+        out = []
+        v0 = m.deref(st, args[0])
+        for s2, v in m.expand_enum(st, v0):
+            out.append((s2, ('bool', (v[2] == 0) == which)))
+        return out
+    return f
+
+
+def _res_map(m, st, fr, callee, args, dest_ty, term):
+    out = []
+    for s2, v in m.expand_enum(st, args[0]):
+        f2 = s2.frames[-1]
+        if v[2] == 0:
+            out.extend(_call_closure_then(m, s2, f2, term, args[1], ('tuple', (v[3][0],)), 'ok'))
+        else:
+            out.append((s2, v))
+    return out
 
 
 def _opt_ok_or_else(m, st, fr, callee, args, dest_ty, term):
@@ -773,6 +879,14 @@ MODELS = {
     'num_traits::ToPrimitive::to_f64': _to_f64,
     'num_traits::Bounded::min_value': _min_value,
     'num_traits::Bounded::max_value': _max_value,
+    'core::num::saturating_sub': lambda m, st, fr, c, a, d, t: op('ssub', a[0], a[1]),
+    'core::num::wrapping_sub': lambda m, st, fr, c, a, d, t: op('wsub', a[0], a[1]),
+    'core::num::checked_sub': lambda m, st, fr, c, a, d, t: _checked(m, st, 'sub', a),
+    'core::num::checked_add': lambda m, st, fr, c, a, d, t: _checked(m, st, 'add', a),
+    'core::num::abs_diff': lambda m, st, fr, c, a, d, t: op('abs', op('sub', a[0], a[1])),
+    'core::num::pow': lambda m, st, fr, c, a, d, t: op('powi', a[0], a[1]),
+    'core::f64::powi': _float_fn('powi'),
+    'core::f64::recip': lambda m, st, fr, c, a, d, t: op('div', T.mk_flt(Fraction(1)), a[0]),
     'core::f64::sqrt': _float_fn('sqrt'),
     'core::f64::floor': _float_fn('floor'),
     'core::f64::round': _float_fn('round'),
@@ -791,6 +905,18 @@ MODELS = {
     'core::option::Option::cloned': _opt_cloned,
     'core::option::Option::copied': _opt_cloned,
     'core::option::Option::ok_or_else': _opt_ok_or_else,
+    'core::option::Option::zip': _opt_zip,
+    'core::option::Option::map_or': _opt_map_or,
+    'core::option::Option::map': _opt_map,
+    'core::option::Option::and_then': _opt_and_then,
+    'core::option::Option::unwrap_or_else': _opt_unwrap_or_else,
+    'core::option::Option::is_some': _opt_is(True),
+    'core::option::Option::is_none': _opt_is(False),
+    'core::option::Option::ok_or': _opt_ok_or,
+    'core::result::Result::ok': _res_ok,
+    'core::result::Result::is_ok': _res_is(True),
+    'core::result::Result::is_err': _res_is(False),
+    'core::result::Result::map': _res_map,
     'core::result::Result::unwrap': _res_unwrap,
     'core::result::Result::expect': _res_unwrap,
     'core::result::Result::map_err': _res_map_err,
